@@ -1,12 +1,61 @@
 //! C18: after complete life cycles the client's four tables are empty (needs --cfg jsonrpsee_verif for the accessor).
-use crate::memclient::{client, ServerSide};
+use crate::memclient::{gated_client, ServerSide};
 use jsonrpsee_core::client::{Client, ClientBuilder, ClientT, Subscription, SubscriptionClientT};
 use jsonrpsee_core::rpc_params;
 use serde_json::{json, Value};
 use std::sync::Arc;
 
-async fn cycle(name: &str, c: &Arc<Client>, s: &mut ServerSide, n: usize) {
+type Gate = Arc<tokio::sync::RwLock<()>>;
+
+async fn cycle(name: &str, c: &Arc<Client>, s: &mut ServerSide, n: usize, gate: &Gate) {
     match name {
+        "sub-abandoned-then-notified" => {
+            // accepted and active; the stream is dropped while the request queue is full, so the drop-time close message is lost;
+            // the next notification for it makes the background task close it
+            let sid = format!("S{n}");
+            let c2 = c.clone();
+            let h = tokio::spawn(async move { c2.subscribe::<Value, _>("sub", rpc_params![], "unsub").await });
+            let rq = s.next_request().await.expect("subscribe on the wire");
+            s.push(json!({"jsonrpc":"2.0","id":rq["id"],"result":sid}));
+            let sub: Subscription<Value> = h.await.unwrap().expect("accepted");
+            let stall = gate.clone().write_owned().await;
+            let (c1, c2) = (c.clone(), c.clone());
+            let h1 = tokio::spawn(async move { c1.request::<Value, _>("x", rpc_params![]).await });
+            tokio::time::sleep(std::time::Duration::from_millis(100)).await;
+            let h2 = tokio::spawn(async move { c2.request::<Value, _>("y", rpc_params![]).await });
+            tokio::time::sleep(std::time::Duration::from_millis(100)).await;
+            drop(sub);
+            tokio::time::sleep(std::time::Duration::from_millis(100)).await;
+            drop(stall);
+            for _ in 0..2 {
+                if let Some(rq) = s.next_request().await {
+                    s.push(json!({"jsonrpc":"2.0","id":rq["id"],"result":1}));
+                }
+            }
+            let _ = h1.await;
+            let _ = h2.await;
+            s.push(json!({"jsonrpc":"2.0","method":"sub","params":{"subscription":sid,"result":"late"}}));
+            while let Some(rq) = s.try_next_request(400).await {
+                s.push(json!({"jsonrpc":"2.0","id":rq["id"],"result":true}));
+            }
+        }
+        "sub-lagging-then-notified" => {
+            // accepted and active; the consumer does not read: more notifications than the buffer holds make the background task close it
+            let sid = format!("S{n}");
+            let c2 = c.clone();
+            let h = tokio::spawn(async move { c2.subscribe::<Value, _>("sub", rpc_params![], "unsub").await });
+            let rq = s.next_request().await.expect("subscribe on the wire");
+            s.push(json!({"jsonrpc":"2.0","id":rq["id"],"result":sid}));
+            let sub: Subscription<Value> = h.await.unwrap().expect("accepted");
+            for k in 0..4 {
+                s.push(json!({"jsonrpc":"2.0","method":"sub","params":{"subscription":sid,"result":k}}));
+            }
+            while let Some(rq) = s.try_next_request(400).await {
+                s.push(json!({"jsonrpc":"2.0","id":rq["id"],"result":true}));
+            }
+            drop(sub);
+            tokio::time::sleep(std::time::Duration::from_millis(100)).await;
+        }
         "call" => {
             let c2 = c.clone();
             let h = tokio::spawn(async move { c2.request::<Value, _>("m", rpc_params![]).await });
@@ -20,6 +69,14 @@ async fn cycle(name: &str, c: &Arc<Client>, s: &mut ServerSide, n: usize) {
             let rq = s.next_request().await.expect("subscribe on the wire");
             s.push(json!({"jsonrpc":"2.0","id":rq["id"],"error":{"code":-32000,"message":"refused"}}));
             let _ = h.await;
+            // ... and refused by an answer that is a success but no subscription id
+            for bad in [json!(true), json!(null), json!({"id": 1}), json!(1.5)] {
+                let c2 = c.clone();
+                let h = tokio::spawn(async move { c2.subscribe::<Value, _>("sub", rpc_params![], "unsub").await.map(|_| ()) });
+                let rq = s.next_request().await.expect("subscribe on the wire");
+                s.push(json!({"jsonrpc":"2.0","id":rq["id"],"result":bad}));
+                let _ = h.await;
+            }
         }
         "sub-server-close" => {
             let c2 = c.clone();
@@ -115,20 +172,38 @@ async fn cycle(name: &str, c: &Arc<Client>, s: &mut ServerSide, n: usize) {
 /// args {cycles: [name, ..]}
 pub fn lifecycle(a: &Value) -> Value {
     let cycles: Vec<String> = a["cycles"].as_array().unwrap().iter().map(|v| v.as_str().unwrap().to_string()).collect();
+    let a = a.clone();
     let rt = tokio::runtime::Builder::new_multi_thread().worker_threads(2).enable_all().build().unwrap();
     rt.block_on(async move {
-        let (c, mut s) = client(ClientBuilder::default());
+        // the abandoned / lagging life cycles need a request queue that can be full and a small notification buffer
+        let tight = cycles.iter().any(|c| c == "sub-abandoned-then-notified" || c == "sub-lagging-then-notified");
+        let builder = if tight {
+            ClientBuilder::default().max_concurrent_requests(1).max_buffer_capacity_per_subscription(2).request_timeout(std::time::Duration::from_secs(5))
+        } else {
+            ClientBuilder::default()
+        };
+        let (c, mut s, gate) = gated_client(builder);
         let c = Arc::new(c);
         for (n, name) in cycles.iter().enumerate() {
-            cycle(name, &c, &mut s, n).await;
+            cycle(name, &c, &mut s, n, &gate).await;
         }
         tokio::time::sleep(std::time::Duration::from_millis(200)).await;
         #[cfg(jsonrpsee_verif)]
         let sizes = c.verif_table_sizes();
         #[cfg(not(jsonrpsee_verif))]
         let sizes = (usize::MAX, 0usize, 0usize, 0usize);
-        let violation = sizes != (0, 0, 0, 0);
-        json!({"scenario":"c18_lifecycle","observed":{"sizes":[sizes.0, sizes.1, sizes.2, sizes.3], "connected": c.is_connected()},"violation":violation,
+        // the recorded finding (one `requests` entry left per unsubscribed subscription) is not what a replay with `beyond_known` is after
+        let known: usize = cycles
+            .iter()
+            .map(|c| match c.as_str() {
+                "sub-unsubscribe-ack" | "sub-dropped-then-ack" | "sub-abandoned-then-notified" | "sub-lagging-then-notified" => 1,
+                "subs-overlap" => 2,
+                _ => 0,
+            })
+            .sum();
+        let beyond = a["beyond_known"].as_bool().unwrap_or(false);
+        let violation = if beyond { sizes.0 > known || (sizes.1, sizes.2, sizes.3) != (0, 0, 0) } else { sizes != (0, 0, 0, 0) };
+        json!({"scenario":"c18_lifecycle","observed":{"sizes":[sizes.0, sizes.1, sizes.2, sizes.3], "known_leftover": known, "connected": c.is_connected()},"violation":violation,
                "why": if violation {"tables not empty after complete life cycles"} else {""}})
     })
 }
